@@ -75,6 +75,10 @@ Interrupted(t, k) == \E u \in BusyOf(t) : Interr(P.uses[u].worker, k)
 Schedule == [sched |-> sched, s |-> ts, e |-> te,
              used |-> [u \in U |-> ust[u] = "done"], bs |-> ubs, be |-> ube, ap |-> ap]
 
+\* tasks whose duration bounds are extended by an interruption calendar (Declarative mode leaves them to Holds)
+UnderInterruption(t) == \E u \in UsesOfTask(P, t) : \E c \in CalCons(InterrCls) :
+                           P.uses[u].worker \in UnitsOf(P, P.cons[c].res)
+
 OperationalCls == UnavailCls \cup InterrCls \cup {"WorkLoad"}
 
 ---------------------------------------------------------------------------
@@ -174,7 +178,7 @@ EndClauses(t) ==
     <<"G_duration",  CASE tk.kind = "F" -> d = tk.dur /\ prog[t] = d
                        [] tk.kind = "Z" -> d = 0
                        [] tk.kind = "V" -> /\ prog[t] >= tk.min
-                                           /\ Has(tk.max) => prog[t] <= Val(tk.max)
+                                           /\ (Has(tk.max) /\ ~(Declarative /\ UnderInterruption(t))) => prog[t] <= Val(tk.max)
                                            /\ Len(tk.allowed) > 0 => d \in SeqToSet(tk.allowed)>>,
     <<"G_horizon",   now <= P.H>>,
     <<"G_not_inside_interruption", Declarative \/ tk.kind # "V" \/ now = 0 \/
@@ -225,7 +229,8 @@ TickClauses ==
            LET tk == P.tasks[t] IN
            CASE tk.kind = "F" -> now - ts[t] < tk.dur
              [] tk.kind = "Z" -> FALSE
-             [] tk.kind = "V" -> Has(tk.max) => (prog[t] < Val(tk.max) \/ (~Declarative /\ Interrupted(t, now)))>>,
+             [] tk.kind = "V" -> Has(tk.max) => (prog[t] < Val(tk.max) \/ (~Declarative /\ Interrupted(t, now))
+                                                  \/ (Declarative /\ UnderInterruption(t)))>>,
     <<"G_deadline_reachable", \A t \in T : (st[t] = "running" /\ Has(P.tasks[t].due) /\ P.tasks[t].deadline)
                                               => now < Val(P.tasks[t].due)>>,
     <<"G_span_delay_in", \A u \in U : ust[u] = "waiting" => now < ts[P.uses[u].task] + P.uses[u].delay_in>>,
